@@ -42,6 +42,10 @@ if TYPE_CHECKING:
     from deep.processor.context.action_context import ActionContext
 
 
+_OWN_PACKAGE = os.path.dirname(os.path.dirname(os.path.abspath(__file__))) + os.sep
+"""The directory of the deep package: frames of these files are never acted on."""
+
+
 class TracepointHandlerUpdateListener(ConfigUpdateListener):
     """This is the listener that connects the config to the handler."""
 
@@ -166,6 +170,10 @@ class TriggerHandler:
             return self.trace_call
 
     def __trace_call(self, frame: FrameType, event: str, arg):
+        if frame.f_code.co_filename.startswith(_OWN_PACKAGE):
+            # our own code runs on threads that are traced like any other (delivery workers, the poll thread): a
+            # tracepoint names a file by its base name, and must never act inside the agent (at worst it dead-locks it)
+            return None
         event, file, line, function = self.location_from_event(event, frame)
         trigger_context = TriggerContext(self._config, self._push_service, frame, event, arg)
 
